@@ -6,7 +6,7 @@ import time
 import z3
 
 from .exec import Interp
-from .interp import Ctx, Frame, Infeasible, zbool
+from .interp import Ctx, Frame, Infeasible, zbool, PyRaise
 from .values import Unsupported, reset_fresh
 from .verify import Engine
 
@@ -23,6 +23,8 @@ def verify_lemma(L, repo, verif_root, seed, timeout_ms):
         by_contract = []
         opaque_calls = {}
         mode = L.mode
+        use = {}
+        instantiate = {}
     FakeContract.__module__ = L.__module__
     eng.current = FakeContract
     worklist = [[]]
@@ -49,11 +51,48 @@ def verify_lemma(L, repo, verif_root, seed, timeout_ms):
                     v = eng.make_sym(ctx, shape, p)
                     fr.locals[p] = v
                     ctx.input_syms[p] = (shape, v)
+                for gname, gs in getattr(L, "ghost_seqs", {}).items():
+                    eng.define_ghost_seq(it, fr, gname, gs)
                 for nm, expr in L.requires.items():
                     g = eng.eval_clause(it, expr, fr)
                     ctx.assume(zbool(g) if not isinstance(g, bool) else g)
+                ind = L.induct
+                if ind:
+                    # induction on k in [0, bound]: claim(0), and claim(k) => claim(k+1) for 0 <= k < bound;
+                    # the conclusion  forall k <= bound. claim(k)  is then available to `ensures`
+                    kname = ind["var"]
+                    bound = it.eval(eng.parse_clause(ind["bound"]), fr)
+                    fr.locals[kname] = 0
+                    g0 = eng.eval_clause(it, ind["claim"], fr)
+                    ctx.check(f"lemma[{L.name}].induction.base", g0, kind="lemma")
+                    kz = z3.Int("ind_" + kname)
+                    from .values import S
+                    from .interp import zof
+                    # the step is checked in a scope of its own (its hypothesis must not leak)
+                    ctx.solver.push()
+                    n_pc, n_q = len(ctx.pc), len(ctx.qfacts)
+                    ctx.assume(z3.And(kz >= 0, kz < zof(bound, "int")))
+                    fr.locals[kname] = S(kz, "int")
+                    hyp = eng.eval_clause(it, ind["claim"], fr)
+                    ctx.assume(zbool(hyp) if not isinstance(hyp, bool) else hyp)
+                    fr.locals[kname] = S(kz + 1, "int")
+                    gs_ = eng.eval_clause(it, ind["claim"], fr)
+                    ctx.check(f"lemma[{L.name}].induction.step", gs_, kind="lemma")
+                    ctx.solver.pop()
+                    del ctx.pc[n_pc:]
+                    del ctx.qfacts[n_q:]
+                    q = z3.Int("all_" + kname)
+                    fr.locals[kname] = S(q, "int")
+                    body = eng.eval_clause(it, ind["claim"], fr)
+                    body = zbool(body) if not isinstance(body, bool) else z3.BoolVal(body)
+                    ctx.assume(z3.ForAll([q], z3.Implies(z3.And(q >= 0, q <= zof(bound, "int")), body)))
+                    del fr.locals[kname]
                 for nm, expr in L.ensures.items():
-                    g = eng.eval_clause(it, expr, fr)
+                    try:
+                        g = eng.eval_clause(it, expr, fr)
+                    except PyRaise as e:
+                        ctx.check(f"lemma[{L.name}].{nm}", False, kind="lemma", detail=f"clause raised {e.cls}")
+                        continue
                     ctx.check(f"lemma[{L.name}].{nm}", g, kind="lemma")
             except Infeasible:
                 pass
